@@ -80,6 +80,11 @@ def c16(ctx):
 @register("C02")
 def c02(ctx):
     ctx.assumptions.append("HashMap iteration order is modelled as an arbitrary permutation oracle; threads as arbitrary interleavings of calls that share only the immutable Linter")
+    sys.path.insert(0, os.path.join(lib.ROOT, "translate"))
+    import gen_shared_state
+    items = gen_shared_state.generate()
+    ctx.obligation("translator: coq/Gen/SharedState.v regenerated from /repo/src (%d static items; not immutable: %s)" % (
+        len(items), [x for x in items if x[2] not in ("immutable", "lazy-immutable")][:5]), True)
     r = PP.pipeline_check(ctx, "C02", {"force": None, "clauses": ["C03"]}, n=6000 if ctx.tier == "quick" else 60000)
     ctx.proof_stage("C02_regex", [])
     if r is None:
